@@ -129,18 +129,9 @@ def gen_case(streams, tier):
         # keep the wide case cheap: basis-state style measurements only, one device
         mps = [["counts", list(wires), False]] + ([["sample", w.sample(wires, 3)]] if w.random() < 0.5 else [])
         dev, rng, shots = "qubit", "numpy", w.choice([5, 20, [4, 9]])
-    # the same request routed through the transforms that serve devices returning only raw samples / counts
-    via = None
-    if dev == "qubit" and rng == "numpy" and w.random() < 0.2:
-        via = w.choice(["from_samples", "from_counts"])
-        if via == "from_counts" and any(m[0] == "sample" for m in mps):
-            via = "from_samples"  # per-shot order cannot be recovered from counts
-        if any(tag in json.dumps(mps) for tag in ('"H"', '"HM"', '"Proj"')):
-            # the transforms do not diagonalise Hermitian observables (and take a Projector next to a rotated
-            # Pauli on the same wire) and silently post-process the undiagonalised samples (observed: <H> =
-            # -1.02 for an exact 1.45) -- that is the diagonalisation transform's business (outside this
-            # property, DESIGN 13.4), so only Pauli words and wire measurements take these routes
-            via = None
+    # the request is also answered from ONE raw register of computational-basis shots through the
+    # measurements' own process_counts / process_samples (what a counts-only or samples-only device relies on)
+    via = "post" if dev == "qubit" and rng == "numpy" and w.random() < 0.25 else None
     return {"n": n, "ops": ops, "mps": mps, "shots": shots, "device": dev, "rng": rng, "via": via,
             "policy": s.choice(POLICIES), "decide_seed": s.getrandbits(32), "dev_seed": w.randint(0, 2**31 - 1)}
 
@@ -366,19 +357,10 @@ def run_case(case):
             seed = simrng.SimGenerator(np.random.PCG64(case["dev_seed"]), hub)
         dev = qp.device("default.qubit" if case["device"] == "qubit" else "default.mixed", wires=n, seed=seed)
         tape = qgen.build_tape({"ops": case["ops"], "mps": case["mps"], "shots": shots})
-        via_fn = None
-        run_tape = tape
-        if case.get("via"):
-            try:
-                (run_tape,), via_fn = getattr(qp.devices.preprocess, "measurements_" + case["via"])(tape)
-            except Exception:  # noqa: BLE001 - the transform does not apply (e.g. non-commuting measurements)
-                run_tape, via_fn = tape, None
         try:
-            res = qp.execute([run_tape], dev, diff_method=None, cache=False)[0]
-            if via_fn is not None:
-                res = via_fn((res,))
+            res = qp.execute([tape], dev, diff_method=None, cache=False)[0]
         except Exception as e:  # noqa: BLE001
-            viol("unexpected_exception", {"via": case.get("via") if via_fn else None}, {"error": repr(e)[:300]})
+            viol("unexpected_exception", {}, {"error": repr(e)[:300]})
             res = None
     finally:
         _ENV["hub"] = None
@@ -387,8 +369,6 @@ def run_case(case):
     counters = {"draws": len(offers), "measurements": len(case["mps"]), "policy:" + case["policy"]: 1,
                 "device:" + case["device"]: 1, "rng:" + case["rng"]: 1, "shot_vectors": int(len(bins) > 1),
                 "associations_ambiguous": 0, "offers_subset_layout": 0}
-    if case.get("via"):
-        counters["via:" + case["via"] + ("" if via_fn is not None else ":not_applicable")] = 1
     if n > 8:
         counters["more_than_eight_wires"] = 1
     if res is not None:
@@ -529,6 +509,63 @@ def run_case(case):
                           "p": [round(float(x), 6) for x in offers[di]["p"][:32]],
                           "measurements": case["mps"]})
                     break
+    # ---- post-processing of one raw register: process_counts / process_samples ------------------------
+    if case.get("via") == "post" and not violations and res is not None:
+        def z_basis(mp_):
+            a = mp_[1]
+            if not (isinstance(a, list) and a and isinstance(a[0], str)):
+                return mp_[0] != "sample" or True
+            if a[0] == "P":
+                return set(a[1]) <= {"Z", "I"}
+            if a[0] == "SP":
+                return set(a[2]) <= {"Z", "I"}
+            if a[0] == "L":
+                return all(set(t[1]) <= {"Z", "I"} for t in a[1])
+            return False
+
+        todo = [mp_ for mp_ in case["mps"] if z_basis(mp_)]
+        if todo:
+            hub2 = simrng.ScriptHub(random.Random(case["decide_seed"] + 1), case["policy"])
+            _ENV["hub"] = hub2
+            try:
+                dev2 = qp.device("default.qubit", wires=n, seed=simrng.SimGenerator(np.random.PCG64(case["dev_seed"]), hub2))
+                raw_tape = qgen.build_tape({"ops": case["ops"], "mps": [["counts", list(range(n)), False], ["sample", list(range(n))]],
+                                            "shots": total})
+                raw_counts, raw_samples = qp.execute([raw_tape], dev2, diff_method=None, cache=False)[0]
+            finally:
+                _ENV["hub"] = None
+            if len(hub2.offers) == 1 and hub2.offers[0]["size"] == total:
+                idx = [int(i) for i in hub2.offers[0]["idx"]]
+                wo = qp.wires.Wires(range(n))
+                counters["post_processed_registers"] = 1
+                for mp_ in todo:
+                    atoms_ = _atoms(mp_)
+                    per_atom = [[_value_map(a_, n)[i] for i in idx] for a_ in atoms_]
+                    exp = _expected(mp_, per_atom, n)
+                    keys_ = None
+                    if mp_[0] == "counts":
+                        keys_ = (["".join(map(str, _bits(i, len(atoms_[0][1])))) for i in range(2 ** len(atoms_[0][1]))]
+                                 if atoms_[0][0] == "wires" else sorted(set(_value_map(atoms_[0], n))))
+                    m_obj = qgen.build_mp(mp_)
+                    for how, call in (("process_counts", lambda: m_obj.process_counts(dict(raw_counts), wo)),
+                                      ("process_samples", lambda: m_obj.process_samples(np.asarray(raw_samples).reshape(total, n), wo))):
+                        if how == "process_counts" and mp_[0] == "sample":
+                            continue  # per-shot order cannot be recovered from counts
+                        try:
+                            got_ = call()
+                        except NotImplementedError:
+                            continue
+                        except Exception as e:  # noqa: BLE001
+                            viol("unexpected_exception", {"where": how, "mp": mp_[0]}, {"measurement": mp_, "error": repr(e)[:200]})
+                            break
+                        if not _matches(exp, got_, mp_, keys_, tol):
+                            viol("post_processing_not_function_of_the_register", {"how": how, "mp": mp_[0]},
+                                 {"measurement": mp_, "expected": json.dumps(exp, default=str)[:300],
+                                  "observed": json.dumps(qgen.to_jsonable(got_), default=str)[:300],
+                                  "register": ["".join(map(str, _bits(i, n))) for i in idx][:12]})
+                            break
+                    if violations:
+                        break
     h = hashlib.sha256(json.dumps([case["policy"], [[o["size"], np.round(o["p"], 6).tolist()] for o in offers],
                                    qgen.to_jsonable(res) if res is not None else None],
                                   sort_keys=True, default=str).encode())
